@@ -18,6 +18,8 @@ type Scenario struct {
 	SWRSet  bool   `json:"swr_set,omitempty"` // WithSWRTimeout passed?
 	SWRNs   int64  `json:"swr_ns,omitempty"`  // value passed to WithSWRTimeout
 	Steps   []Step `json:"steps"`
+	// Threads, if present, run concurrently after Steps (each thread issues its requests in order).
+	Threads [][]*Req `json:"threads,omitempty"`
 	// Faults is the store fault plan: the n-th store operation (0-based, counted over the
 	// whole scenario, in the order they reach the driver.Conn) is altered.
 	Faults []Fault `json:"faults,omitempty"`
@@ -49,9 +51,14 @@ type Req struct {
 	// Uncond is the origin's answer to a request without If-None-Match/If-Modified-Since,
 	// Cond (optional) the answer to one that carries either. Bg (optional) overrides both
 	// for calls not made on the caller's goroutine (background revalidation).
-	Uncond Reply  `json:"uncond"`
-	Cond   *Reply `json:"cond,omitempty"`
-	Bg     *Reply `json:"bg,omitempty"`
+	// Client behaviour after RoundTrip returned (used by the concurrency checks): scribble on
+	// the returned header map, read the body late, mutate the own request after closing the body.
+	Scribble   bool   `json:"scribble,omitempty"`
+	LateBodyNs int64  `json:"late_body_ns,omitempty"`
+	ReuseReq   bool   `json:"reuse_req,omitempty"`
+	Uncond     Reply  `json:"uncond"`
+	Cond       *Reply `json:"cond,omitempty"`
+	Bg         *Reply `json:"bg,omitempty"`
 }
 
 // Reply describes what the scripted origin does for one call.
